@@ -129,10 +129,16 @@ def multi_worker(kp, job):
     rng = random.Random(seed * 472882027 + idx)
     records = []
     for _ in range(40):
+        # the characters the grammar also reads as an accidental-display suffix (x X i I j Z y Y) are used only in cells
+        # none of whose notes has an accidental (the property's own restriction; chord notes share their signifiers)
+        with_acc = rng.random() < 0.4
+        pool = [m for m in MULTI if not (with_acc and any(ch in 'xXiIjZyY' for ch in m))]
+        pitches = ['c', 'dd', 'E', 'f#', 'b-'] if with_acc else ['c', 'dd', 'E', 'GG', 'a']
+
         def note():
-            ds = [rng.choice(MULTI) for _ in range(rng.randint(1, 3))]
+            ds = [rng.choice(pool) for _ in range(rng.randint(1, 3))]
             pre = ''.join(d for d in ds if d in ('(', '&(', '&&(', '[', '[y') and rng.random() < 0.35)
-            return pre + rng.choice(['4', '8', '16', '2.']) + rng.choice(['c', 'dd', 'E', 'f#', 'b-']) + ''.join(ds)
+            return pre + rng.choice(['4', '8', '16', '2.']) + rng.choice(pitches) + ''.join(ds)
         cell = note() if rng.random() < 0.6 else ' '.join(note() for _ in range(rng.randint(2, 3)))
         text = f'**kern\n*clefG2\n{cell}\n*-\n'
         viol = []
